@@ -192,16 +192,17 @@ func (v SVal) Coq() string {
 		e := map[string]string{"": "SNone", "authn": "SAuthn", "other": "SOther"}[v.SErr]
 		return fmt.Sprintf("VStep %s %s", coqBool(v.More), e)
 	case "bind":
-		return fmt.Sprintf("VBind %s", coqBool(v.Err))
+		e := map[string]string{"": "BOk", "stanza": "BStanza", "other": "BErr"}[v.SErr]
+		return "VBind " + e
 	}
 	panic("unknown sval kind " + v.K)
 }
 
 func (v SVal) IsErr() bool {
 	switch v.K {
-	case "out", "bind":
+	case "out":
 		return v.Err
-	case "step":
+	case "step", "bind":
 		return v.SErr != ""
 	}
 	return false
@@ -256,10 +257,11 @@ type Scenario struct {
 	TLSs  Stream `json:"-"` // the peer's stream on the TLS layer
 
 	// scripted callbacks
-	Outs    map[int][]SVal `json:"outs,omitempty"`  // per custom feature: Negotiate outcomes in call order
-	Steps   []SVal         `json:"steps,omitempty"` // scripted SASL mechanism (nil: the real PLAIN)
-	BadPass bool           `json:"badpass,omitempty"`
-	BindErr bool           `json:"binderr,omitempty"`
+	Outs          map[int][]SVal `json:"outs,omitempty"`  // per custom feature: Negotiate outcomes in call order
+	Steps         []SVal         `json:"steps,omitempty"` // scripted SASL mechanism (nil: the real PLAIN)
+	BadPass       bool           `json:"badpass,omitempty"`
+	BindErr       bool           `json:"binderr,omitempty"`
+	BindStanzaErr bool           `json:"bindstanzaerr,omitempty"` // the bind callback returns a stanza error
 
 	// expectations used by the oracle (independent of the model)
 	WantOK bool `json:"want_ok"` // the un-faulted handshake completes
